@@ -5,7 +5,8 @@ VERIF = os.path.dirname(os.path.dirname(os.path.abspath(__file__)))
 LEAN = os.path.join(VERIF, "lean")
 HARNESS = os.path.join(VERIF, "harness")
 GDMODEL = os.path.join(LEAN, ".lake", "build", "bin", "gdmodel")
-GDHARNESS = os.path.join(HARNESS, "target", "debug", "gdharness")
+# VERIF_HARNESS_BIN: another build of the same harness (tools/coverage.py uses an instrumented one)
+GDHARNESS = os.environ.get("VERIF_HARNESS_BIN") or os.path.join(HARNESS, "target", "debug", "gdharness")
 WORK = os.path.join(VERIF, ".work")
 REPO = os.path.realpath(os.path.join(VERIF, "repo-link"))
 ALLOWED_AXIOMS = {"propext", "Classical.choice", "Quot.sound"}
